@@ -57,8 +57,11 @@ def beyond_window(f):
     import reuse.extract as ex
 
     data = open(annot.carrier_of(f), "rb").read()
-    last = max(data.rfind(b"SPDX-License-Identifier"), data.rfind(b"SPDX-FileCopyrightText"), data.rfind(b"SPDX-FileContributor"))
-    if last < 4000 or b"SPDX-SnippetBegin" in data:
+    last = max(data.rfind(m) for m in (b"SPDX-License-Identifier", b"SPDX-FileCopyrightText", b"SPDX-FileContributor", b"Copyright", "©".encode()))
+    if last >= 0:
+        nl = [x for x in (data.find(b"\n", last), data.find(b"\r", last)) if x >= 0]
+        last = min(nl) if nl else len(data)   # the end of the last line that carries a tag or notice
+    if last <= 4096 or b"SPDX-SnippetBegin" in data:
         return None
     try:
         info = ex.extract_reuse_info(data.decode("utf-8", "replace").replace("\r\n", "\n").replace("\r", "\n"))
